@@ -31,6 +31,13 @@ M = [
     ("aton6_two_double_colons", "dns/ipv6.py", "            if seen_empty:\n                raise dns.exception.SyntaxError\n", "            if seen_empty and False:\n                raise dns.exception.SyntaxError\n"),
     ("aton6_short_ok", "dns/ipv6.py", "    if l < 8 and not seen_empty:\n", "    if l < 7 and not seen_empty:\n"),
     ("aton6_scope_default", "dns/ipv6.py", "    if ignore_scope:\n        parts", "    if True:\n        parts"),
+    ("aton6_no_group_length_check", "dns/ipv6.py", "            if lc > 4:\n", "            if lc > 6:\n"),
+    ("aton6_bare_double_colon", "dns/ipv6.py", '    elif btext == b"::":\n        btext = b"0::"\n', '    elif btext == b":::":\n        btext = b"0::"\n'),
+    ("aton4_octal_leading_zero", "dns/ipv4.py", '        if len(part) > 1 and part[0] == ord("0"):\n            # No leading zeros\n            raise dns.exception.SyntaxError\n', "        pass\n",
+     "        b = [int(part) for part in parts]\n", "        b = [int(part, 8) if len(part) > 1 and part[:1] == b'0' else int(part) for part in parts]\n"),
+    ("aton4_decimal_leading_zero_FREE", "dns/ipv4.py", '        if len(part) > 1 and part[0] == ord("0"):\n            # No leading zeros\n            raise dns.exception.SyntaxError\n', "        pass\n"),
+    ("any_for_af_v6_loopback", "dns/inet.py", '        return "::"\n', '        return "::1"\n'),
+    ("ntop_unknown_family_valueerror", "dns/inet.py", "        return dns.ipv6.inet_ntoa(address)\n    else:\n        raise NotImplementedError", "        return dns.ipv6.inet_ntoa(address)\n    else:\n        raise ValueError"),
     ("aton4_sign", "dns/ipv4.py", "        if not part.isdigit():\n", "        if not part.lstrip(b'+').isdigit():\n"),
     ("aton4_leading_zero_octal", "dns/ipv4.py", "        b = [int(part) for part in parts]\n", "        b = [int(part, 8) if part.startswith(b'0') else int(part) for part in parts]\n"),
     ("mc4_upper", "dns/inet.py", "first >= 224 and first <= 239", "first >= 224 and first < 239"),
@@ -69,17 +76,20 @@ def main():
     print("baseline rc=%d signatures=%s" % (r.returncode, sorted(base_sigs)), flush=True)
     assert base_sigs == BASE, base_sigs ^ BASE
     try:
-        for name, path, old, new in M:
+        for name, path, *edits in M:
             if want and name not in want:
                 continue
             sh("git", "-C", WT, "checkout", ".")
             fn = os.path.join(WT, path)
             src = open(fn).read()
-            if src.count(old) != 1:
-                out[name] = "NOT-APPLIED (%d matches)" % src.count(old)
+            bad = [old for old in edits[0::2] if src.count(old) != 1]
+            if bad:
+                out[name] = "NOT-APPLIED (%r)" % bad
                 print(name, out[name], flush=True)
                 continue
-            open(fn, "w").write(src.replace(old, new))
+            for old, new in zip(edits[0::2], edits[1::2]):
+                src = src.replace(old, new)
+            open(fn, "w").write(src)
             r = sh("/verif/check", "X01", "--tier", "quick", env=env, cwd="/verif")
             sigs = set(re.findall(r"sig=(\S+)", r.stdout))
             new_sigs = sorted(sigs - BASE)
